@@ -170,7 +170,7 @@ func main() {
 			cases = fsp.Cases
 		}
 		for _, cs := range cases {
-			rep := x.verifyFunc(fsp, cs)
+			rep := x.verifyFunc(fsp, cs, *prop)
 			// restrict to obligations of this property
 			var keepO []*Obl
 			for _, o := range rep.Obls {
